@@ -146,6 +146,13 @@ class Actor:
         self.gate_forced_seq = None
 
 
+def _gate_forced_before(self, seq):
+    return self.gate_forced and self.gate_forced_seq is not None and self.gate_forced_seq <= seq
+
+
+Actor.gate_forced_before = _gate_forced_before
+
+
 class DispDouble:
     def __init__(self, eng, spec, uid, scope_uid):
         self.eng = eng
@@ -1392,7 +1399,9 @@ class Engine:
                           where=info["where"])
             return
         for c in info["pending_children"]:
-            if c.held and (c.gate_forced or not c.task.cancelled()) and not info["aborting"]:
+            forced_after = c.gate_forced and c.gate_forced_seq > victim.cancel_landed
+            if c.held and (forced_after or not c.task.cancelled()) and not c.gate_forced_before(victim.cancel_landed) \
+                    and not info["aborting"]:
                 sim.fail_post("child-not-cancelled", f"actor {victim.aid} was cancelled ({info['where']}) but blocked child actor "
                               f"{c.aid} of its scope was not cancelled (gate forced: {c.gate_forced})", where=info["where"])
                 return
